@@ -293,9 +293,22 @@ def run(prog, rep, tier, repo):
             else:
                 rep.ok('max-shift', key, 'every exp argument is element - max: %s' % show_expr(ret)[:200])
             # normalisation
+            def sum_of(red):
+                # the summand of a reduction: sum{e}, or fold{0.0, acc + e} (a left fold from zero is the same sum in the same order)
+                if red[0] != 'red':
+                    return None
+                if red[1] == 'sum' and len(red[2]) == 1:
+                    return next(iter(red[2]))
+                if red[1] in ('fold', 'acc'):
+                    rest = [q for q in red[2] if q != ('c', 0.0)]
+                    if len(rest) == 1 and ('c', 0.0) in red[2] or (len(rest) == 1 and red[1] == 'acc'):
+                        q = rest[0]
+                        if q[0] == 'b' and q[1] == 'Add' and ('sym', 'acc') in (q[2], q[3]):
+                            return q[3] if q[2] == ('sym', 'acc') else q[2]
+                return None
+
             def is_norm(r):
-                return r[0] == 'b' and r[1] == 'Div' and r[2][0] == 'm' and r[2][1] == 'exp' and r[3][0] == 'red' and r[3][1] == 'sum' \
-                    and r[3][2] == frozenset([r[2]])
+                return r[0] == 'b' and r[1] == 'Div' and r[2][0] == 'm' and r[2][1] == 'exp' and sum_of(r[3]) == r[2]
             okn = len(ret) == 1 and is_norm(next(iter(ret)))
             norms = [r for r in ret if is_norm(r)]
             # in-place normalisation (out[k] /= s over a buffer of exp values): the weak update of the abstraction keeps the
@@ -308,7 +321,14 @@ def run(prog, rep, tier, repo):
                 rep.ok('normalised', key2, 'output_i = e_i / sum(e) with e = %s' % show_expr(next(iter(ret))[2])[:120])
                 rep.sample('softmax => %s' % show_expr(ret)[:200])
             else:
-                rep.viol('normalised', key2, 'softmax output is %s, not exp_i / sum(exp) with one common expression' % show_expr(ret)[:300], site_of(pdb.bodies[k]))
+                # a definite mismatch: a quotient exp / reduction whose summand is read and differs from the numerator, or no division at all
+                rs = list(ret)
+                definite = all((r[0] == 'b' and r[1] == 'Div' and r[2][0] == 'm' and r[2][1] == 'exp' and sum_of(r[3]) is not None and sum_of(r[3]) != r[2]) or
+                               not any(e[0] == 'b' and e[1] == 'Div' for e in _subexprs(r)) for r in rs)
+                if definite:
+                    rep.viol('normalised', key2, 'softmax output is %s, not exp_i / sum(exp) with one common expression' % show_expr(ret)[:300], site_of(pdb.bodies[k]))
+                else:
+                    rep.undecided('normalised', key2, 'normaliser of %s not read as a sum of the numerator expression' % show_expr(ret)[:120], site_of(pdb.bodies[k]), proof=False)
     rep.floor('max-shift', 1, 'softmax')
     rep.floor('normalised', 1, 'softmax')
 
